@@ -395,3 +395,4 @@ func check(c Case) (out ev.Outcome) {
 
 func TestProp(t *testing.T)   { ev.Prop(t, false, gen, check) }
 func TestReplay(t *testing.T) { ev.Replay(t, check) }
+func FuzzC20(f *testing.F)    { ev.FuzzProp(f, false, gen, check) }
